@@ -373,8 +373,12 @@ func checkFile(fc FileCase, scratch string) (key, msg string, out uint64) {
 				return
 			}
 			_, e = astisub.OpenFile(p)
-		case "write-ok":
+		case "write-ok", "write-over-longer-file":
 			p := filepath.Join(dir, "out"+fc.Ext)
+			if fc.Kind == "write-over-longer-file" {
+				// the destination exists already and is longer than what will be written: nothing of it may survive
+				os.WriteFile(p, bytes.Repeat([]byte("1\n00:00:09,000 --> 00:00:10,000\nstale\n\n"), 200), 0o644)
+			}
 			e = s.Write(p)
 			if e != nil {
 				e = nil
@@ -552,7 +556,7 @@ func run(c *core.Ctx) {
 		}
 	}
 	// ---- file helpers ----
-	for _, kind := range []string{"open-missing", "open-directory", "open-read-fault", "write-missing-parent", "write-under-a-file", "write-onto-directory", "write-device-full", "write-ok"} {
+	for _, kind := range []string{"open-missing", "open-directory", "open-read-fault", "write-missing-parent", "write-under-a-file", "write-onto-directory", "write-device-full", "write-ok", "write-over-longer-file"} {
 		for _, ext := range []string{".srt", ".ssa", ".ass", ".stl", ".ttml", ".vtt", ".ts", ".SRT"} {
 			if strings.HasPrefix(kind, "write") && ext == ".ts" {
 				continue
@@ -600,7 +604,7 @@ func replay(sub string, raw json.RawMessage) (string, bool) {
 func init() {
 	core.Register(&core.Prop{
 		ID: "C18", Level: "fault_enumeration",
-		Rule: "reads: for every corpus document and EVERY offset k in 0..len (TTML: up to the end of the root element) the stream delivers k bytes and then fails with each of six errors (a sentinel, io.ErrUnexpectedEOF bare and wrapped, an error whose text is EOF, a closed pipe, a timeout), in two shapes ((0,err) on the next call; the last bytes together with err) and under whole-buffer and 7-byte (thorough: 1,7,188,1024-byte) deliveries; oracle: a reader that reached the fault returns a non-nil error; over-long lines 65535..2^20 at three positions in srt/vtt/ssa: error or complete result; writes: for every parsed corpus document x every writer x every k in 0..len(output)-1 a destination that accepts k bytes then fails in three shapes (partial acceptance, rejection, a transient fault of exactly one Write call); oracle: non-nil error; fault-free run hands the complete output to the destination; file helpers: missing file, directory, a file whose first read fails (EIO), missing parent, path under a regular file, a destination that can be created but not written (/dev/full) x every extension; distinct = (document, offset, shape, delivery)",
+		Rule: "reads: for every corpus document and EVERY offset k in 0..len (TTML: up to the end of the root element) the stream delivers k bytes and then fails with each of six errors (a sentinel, io.ErrUnexpectedEOF bare and wrapped, an error whose text is EOF, a closed pipe, a timeout), in two shapes ((0,err) on the next call; the last bytes together with err) and under whole-buffer and 7-byte (thorough: 1,7,188,1024-byte) deliveries; oracle: a reader that reached the fault returns a non-nil error; over-long lines 65535..2^20 at three positions in srt/vtt/ssa: error or complete result; writes: for every parsed corpus document x every writer x every k in 0..len(output)-1 a destination that accepts k bytes then fails in three shapes (partial acceptance, rejection, a transient fault of exactly one Write call); oracle: non-nil error; fault-free run hands the complete output to the destination; file helpers: missing file, directory, a file whose first read fails (EIO), missing parent, path under a regular file, a destination that can be created but not written (/dev/full), a destination that exists and is longer than the new document x every extension; distinct = (document, offset, shape, delivery)",
 		Scope: map[core.Tier]string{
 			core.Quick:    "all corpus documents (hand-made + /repo/testdata) x every read offset x 2 shapes x 2 deliveries; 45 over-long-line documents; writes: every offset for hand-made documents and same-format testdata, block-structured offsets for cross-format testdata conversions; 42 file-helper cases",
 			core.Thorough: "reads with 5 deliveries and, for documents <=2000 bytes, every fault offset under every single-split delivery (len^2/2 executions per document); writes at every offset for every document x writer pair",
